@@ -4,6 +4,8 @@ go 1.22.12
 
 require ariga.io/atlas v0.0.0
 
+require golang.org/x/mod v0.17.0 // indirect
+
 require (
 	github.com/agext/levenshtein v1.2.1 // indirect
 	github.com/apparentlymart/go-textseg/v13 v13.0.0 // indirect
@@ -14,9 +16,9 @@ require (
 	github.com/hashicorp/hcl/v2 v2.13.0 // indirect
 	github.com/mattn/go-sqlite3 v1.14.24
 	github.com/mitchellh/go-wordwrap v0.0.0-20150314170334-ad45545899c7 // indirect
-	github.com/zclconf/go-cty v1.14.4 // indirect
+	github.com/zclconf/go-cty v1.14.4
 	github.com/zclconf/go-cty-yaml v1.1.0 // indirect
 	golang.org/x/text v0.21.0 // indirect
 )
 
-replace ariga.io/atlas => /repo
+replace ariga.io/atlas => /tmp/vw/types/repo
